@@ -195,6 +195,7 @@ def sequential_job(job):
         tr.connect()
         got, k = [], 0
         pubs = []
+        held = {}
         for op in ops:
             if op[0] == "pub":
                 for _ in range(op[2]):
@@ -210,6 +211,20 @@ def sequential_job(job):
                     if n >= op[2]:
                         break
                 sub.close()
+            elif op[0] == "open":          # take n messages and keep the subscription (its iterator) open
+                held["sub"] = tr.subscribe(op[1])
+                held["it"] = iter(held["sub"])
+                for _ in range(op[2]):
+                    try:
+                        got.append(next(held["it"]).data)
+                    except StopIteration:
+                        break
+            elif op[0] == "close":         # stop iterating and close the held subscription
+                it, sub = held.pop("it", None), held.pop("sub", None)
+                if it is not None and hasattr(it, "close"):
+                    it.close()
+                if sub is not None:
+                    sub.close()
             elif op[0] == "drain":
                 for m in tr.subscribe(op[1]):
                     got.append(m.data)
@@ -231,6 +246,12 @@ def sequential_job(job):
     run("two early closes", [("pub", "c", 4), ("take", "c", 1), ("take", "c", 1), ("pub", "c", 2), ("drain", "c")])
     run("take more than pending", [("pub", "c", 1), ("take", "c", 5), ("pub", "c", 2), ("take", "c", 1), ("drain", "*")])
     run("exact subscription on a channel created later", [("take", "c", 1), ("pub", "c", 2), ("drain", "c")])
+    run("publish while a subscription that took one message is still open, then close",
+        [("pub", "c", 3), ("open", "c", 1), ("pub", "c", 1), ("close",), ("drain", "c")])
+    run("same with a wildcard subscription over two channels",
+        [("pub", "a.x", 2), ("pub", "a.y", 2), ("open", "a.*", 1), ("pub", "a.x", 1), ("pub", "a.y", 1), ("close",), ("drain", "*")])
+    run("open, take two, publish, close, publish, drain",
+        [("pub", "c", 4), ("open", "c", 2), ("pub", "c", 1), ("close",), ("pub", "c", 1), ("drain", "c")])
     return {"oracle": bad, "file": mod.__file__}
 
 
